@@ -266,6 +266,9 @@ func checkC08(c *Ctx) error {
 		} else {
 			g.conf = c08Invalid(r, i/2)
 		}
+		if i%4 == 0 {
+			g.conf.Meta.Pkg = nil // the documented default (main), whatever else lives in the output directory
+		}
 		// 6-7 files, some matched by two patterns when the group is invalid (duplicate-pattern errors)
 		parts := gen.SplitParts(r, g.conf, 6)
 		names := []string{"in/a.yaml", "in/b.yaml", "in/c.yaml", "in/d.yaml", "in/e.yaml", "in/f.yaml"}
@@ -335,6 +338,19 @@ func checkC08(c *Ctx) error {
 		case 3:
 			_ = work.WriteFile(filepath.Join(dir, "out.go"), []byte("package old\n"+strings.Repeat("var _ = 0\n", 3000)))
 			_ = os.Chmod(filepath.Join(dir, "out.go"), 0o600)
+		}
+		// other Go files next to the output (the package the container is generated into, a build-ignored helper of another
+		// package, a test file) are not an input
+		switch j.k % 4 {
+		case 1:
+			_ = work.WriteFile(filepath.Join(dir, "store.go"), []byte("package store\n\nvar X = 1\n"))
+		case 2:
+			_ = work.WriteFile(filepath.Join(dir, "store.go"), []byte("package store\n"))
+			_ = work.WriteFile(filepath.Join(dir, "zz_gen.go"), []byte("//go:build ignore\n\npackage main\n\nfunc main() {}\n"))
+			_ = work.WriteFile(filepath.Join(dir, "store_test.go"), []byte("package store_test\n"))
+		case 3:
+			_ = work.WriteFile(filepath.Join(dir, "aaa.go"), []byte("package aaa\n"))
+			_ = work.WriteFile(filepath.Join(dir, "zzz.go"), []byte("package zzz\n"))
 		}
 		bin := bins[j.k%len(bins)]
 		res := work.Run(bin, dir, envFor(j.k, dir), 120*time.Second, nil, args...)
@@ -440,7 +456,7 @@ func checkC08(c *Ctx) error {
 				if zi == 0 {
 					first = obs
 					if res.Exit != 0 {
-						c.Side("C11,C18", "stamped-build-rejects-valid-config", "a stamped build rejects a valid configuration:\n"+res.Stdout, map[string]string{"ldflags.txt": st})
+						c.Violate("stamped-build-rejects-valid-config", "a stamped build rejects a valid configuration:\n"+res.Stdout, map[string]string{"ldflags.txt": st})
 						break
 					}
 					continue
@@ -513,7 +529,7 @@ func checkC08(c *Ctx) error {
 			res := work.Run(w.Bin, dir, w.SaneEnv(), 120*time.Second, nil, "build", "-i", "in.yaml", "-o", "out.go")
 			b, _ := os.ReadFile(filepath.Join(dir, "out.go"))
 			if res.Exit != 0 {
-				c.Side("C11", "valid-config-rejected:"+sigWords(res.Stdout[max(0, len(res.Stdout)-200):]), "a valid configuration of the determinism workload was rejected:\n"+res.Stdout, map[string]string{"input/in.yaml": yaml})
+				c.Violate("valid-config-rejected:"+sigWords(res.Stdout[max(0, len(res.Stdout)-200):]), "a valid configuration of the determinism workload was rejected:\n"+res.Stdout, map[string]string{"input/in.yaml": yaml})
 				return
 			}
 			if p == 0 {
